@@ -138,6 +138,51 @@ func (vc *FuncVC) solveAll(all []*Oblig, cfg solverCfg) {
 	vc.solveSet(obs, cfg)
 }
 
+// crossCheck (thorough tier): every discharged obligation is re-checked, alone, by the two
+// other solvers; a `sat` answer from either is a disagreement and fails the obligation.
+func (vc *FuncVC) crossCheck(obs []*Oblig, cfg solverCfg) (agree, unknown, disagree int) {
+	prelude := vc.w.prelude()
+	type res struct{ a, u, d int }
+	out := make(chan res, len(obs))
+	sem := make(chan struct{}, cfg.workers)
+	n := 0
+	for _, o := range obs {
+		if o.Expect == "sat" || o.Result != "unsat" {
+			continue
+		}
+		n++
+		o := o
+		go func() {
+			sem <- struct{}{}
+			defer func() { <-sem }()
+			r := res{}
+			script := singleScript(prelude, vc.decls, o, false, false)
+			for _, j := range [][]string{{"z3", "-in", "-T:20"}, {"cvc5", "--lang=smt2", "--tlimit=20000"}} {
+				ctx, cancel := context.WithTimeout(context.Background(), 25*time.Second)
+				outp, _ := runSolver(ctx, j[0], j[1:], script)
+				cancel()
+				switch firstLine(outp) {
+				case "unsat":
+					r.a++
+				case "sat":
+					r.d++
+					o.Result, o.Solver, o.Raw = "sat", j[0]+"(cross-check)", "solvers disagree: z3-new answered unsat"
+				default:
+					r.u++
+				}
+			}
+			out <- r
+		}()
+	}
+	for i := 0; i < n; i++ {
+		r := <-out
+		agree += r.a
+		unknown += r.u
+		disagree += r.d
+	}
+	return
+}
+
 func (vc *FuncVC) solveSet(obs []*Oblig, cfg solverCfg) {
 	if len(obs) == 0 {
 		return
